@@ -414,8 +414,10 @@ def navigate(msg, path):
     return cur
 
 
-def perform(msg, op, cls_lookup=None):
-    """Run op on the live message. Returns None or the exception raised."""
+def perform(msg, op, cls_lookup=None, handles=None):
+    """Run op on the live message. Returns None or the exception raised.
+    handles: array objects of the ROOT message handed out earlier (they cannot be replaced: array fields are not
+    assignable); an op marked 'kept' goes through the object obtained the first time instead of reading the field again."""
     try:
         tgt = navigate(msg, op['path'])
         kind, a = op['op'], op['args']
@@ -426,7 +428,14 @@ def perform(msg, op, cls_lookup=None):
         elif kind == 'set':
             setattr(tgt, op['member'], a[0])
         else:
-            arr = getattr(tgt, op['member'])
+            if handles is not None and not op['path']:
+                if op.get('kept') and op['member'] in handles:
+                    arr = handles[op['member']]
+                else:
+                    arr = getattr(tgt, op['member'])
+                    handles.setdefault(op['member'], arr)
+            else:
+                arr = getattr(tgt, op['member'])
             if kind == 'setitem':
                 arr[a[0]] = a[1]
             elif kind == 'setslice':
